@@ -1,4 +1,5 @@
 import Tahoe.GridManager.Lemmas
+import Tahoe.StorageClient.Upload
 /-!
 C33 — Grid-manager certificates grant permission only when valid.
 
@@ -6,6 +7,21 @@ Statements are about `Tahoe.GridManager.verifier`, the model of
 `grid_manager.create_grid_manager_verifier` (tied to the code by `harness/props/c33.py`).
 Ed25519 enters as the parameter `verify` and, where needed, the explicit hypothesis
 `Unforgeable pub sign verify` (instance: `symVerify_unforgeable`).
+-/
+/-!
+## Coverage of the statement
+
+| clause of C33 | proved for the model by |
+|---|---|
+| a server is permitted exactly when at least one of its certificates is signed by a configured key, names that server's public key, and has not expired at the current time | `permitted_iff` (iff, for every time; under `SignedWellFormed`), `expired_at_instant_not_permitted` (strict at the instant of expiry), `upload_verdict_iff` (the same for `upload_permitted()` of an announced server as the broker uses it: a function of certificates, keys and the current time, no call history) |
+| with no configured keys every server is permitted | `no_keys_all_permitted`, `upload_verdict_no_keys` |
+| tampered, expired, wrong-key or other-server certificates never grant permission | `granted_only_if` (no assumption at all on what was signed), `tampered_or_foreign_never_grants` (under `Unforgeable`; the expiry compared is that of the *same* certificate that names the server — seed C33-a; the signature must be on exactly the presented bytes — seed C33-b) |
+| quantifier: random key / certificate sets evaluated at random times including the moment of expiry | all theorems are for arbitrary lists and integer times |
+
+Assumed, not proved: Ed25519 (`Unforgeable`, explicit hypothesis with the instance
+`symVerify_unforgeable`); JSON / ISO-8601 parsing (the parameter `parse`, computed by the harness with
+the library calls the code uses).  Outside the statement but modelled and compared: a correctly
+signed malformed certificate makes the code raise (`Err`), never answer `True` (`granted_only_if`).
 -/
 namespace Tahoe.C33
 open Tahoe.GridManager
@@ -188,5 +204,39 @@ theorem no_keys_all_permitted [DecidableEq Id] (verify : PK → Sig → Msg → 
 example : ∃ f, verifier symVerify (fun _ => (Parsed.invalid : Parsed Nat)) []
     [(⟨0, .signed 1 0⟩ : SignedCert SymSig Nat)] 7 = .ok f ∧ f (.naive 0) = .ok true :=
   ⟨_, rfl, rfl⟩
+
+section
+open Tahoe.StorageClient
+
+/-- The broker's view: `NativeStorageServer.upload_permitted()` asked at `now` — the verifier built
+    from the server's announcement, asked on every call — is the documented predicate *at `now`*, a
+    pure function of (certificates, keys, `now`): no call history enters (seeds C32-a / C33-c
+    remembered the first answer). -/
+theorem upload_verdict_iff {PK Sig Msg : Type} (verify : PK → Sig → Msg → Bool) (parse : Msg → Parsed Nat)
+    (keys : List PK) (hk : keys ≠ []) (a : Announced Sig Msg)
+    (hwf : SignedWellFormed verify parse keys a.certs) (now : Int) :
+    verdict verify parse keys (.aware now) a = true ↔
+      ∃ c ∈ a.certs, ∃ k ∈ keys, verify k c.signature c.certificate = true ∧
+        ∃ e, parse c.certificate = .dict (.time (.aware e)) (.ascii a.id) ∧ now < e := by
+  obtain ⟨f, hf, hall⟩ := permitted_iff verify parse keys a.certs a.id hk hwf
+  obtain ⟨h1, h2⟩ := hall now
+  rw [← h2]
+  unfold verdict
+  rw [hf]
+  rcases h1 with h | h <;> simp [h]
+
+/-- with no configured keys the verdict is `true` whatever was announced -/
+theorem upload_verdict_no_keys {PK Sig Msg : Type} (verify : PK → Sig → Msg → Bool) (parse : Msg → Parsed Nat)
+    (a : Announced Sig Msg) (now : Time) : verdict verify parse ([] : List PK) now a = true := by
+  simp [verdict, verifier]
+
+/-- the same announced server asked at 99, 100 (the expiry instant) and again at 99: the answer
+    follows the clock, not the order of the questions -/
+example :
+    let a : Announced SymSig Nat := ⟨7, true, [⟨0, .signed 1 0⟩], 0⟩
+    let parse : Nat → Parsed Nat := fun _ => .dict (.time (.aware 100)) (.ascii 7)
+    [99, 100, 99].map (fun t => verdict symVerify parse [1] (.aware t) a) = [true, false, true] := by decide
+
+end
 
 end Tahoe.C33
